@@ -43,6 +43,9 @@ func (t *tagger) bytes(n int) []byte {
 	}
 	return b
 }
+// Text returns n tagged letters.
+func (t *tagger) Text(n int) string { return t.text(n) }
+
 func (t *tagger) text(n int) string {
 	b := make([]byte, n)
 	for i := range b {
